@@ -94,6 +94,10 @@ func methodOf(kind string) (string, *grpc.StreamDesc) {
 		return "/" + svcName + "/CS", &grpc.StreamDesc{StreamName: "CS", ClientStreams: true}
 	case "ss":
 		return "/" + svcName + "/SS", &grpc.StreamDesc{StreamName: "SS", ServerStreams: true}
+	case "xbidi": // a method the service does not have
+		return "/" + svcName + "/Nope", &grpc.StreamDesc{StreamName: "Nope", ServerStreams: true, ClientStreams: true}
+	case "ybidi": // a service the server does not have
+		return "/no.Such/Bidi", &grpc.StreamDesc{StreamName: "Bidi", ServerStreams: true, ClientStreams: true}
 	}
 	return "/" + svcName + "/Unary", nil
 }
@@ -172,6 +176,10 @@ func (cl *call) runStream(cc *goat.ClientConn, st Step) {
 	e.Md = mdCanon(mdOf(st.Md))
 	cl.begin("open")
 	tr.emit(e)
+	if st.What == "pre" { // the caller's context is over before NewStream is called
+		tr.emit(cl.base("Cancel"))
+		cl.cancel()
+	}
 	m, desc := methodOf(st.Kind)
 	cs, err := cc.NewStream(cl.ctx, desc, m)
 	r := cl.base("SOpenRet")
